@@ -271,6 +271,27 @@ def new_constructs(ur, rec):
     return out
 
 
+def displaced_aids(ur, rec):
+    """position-bound proof aids of an extracted function that no longer sit where they were written for (baseline_shapes.json): a hint whose
+    anchor statement is now enclosed by different blocks, a loop-end proof step in a loop that has more `continue` exits than before (they skip
+    it), an exit-state proof step in a function that has more early exits than before. The aid text is a proof step for a particular program
+    point; when the control structure around it was reshaped, a failing proof may be the misplaced step, not the code."""
+    base = BASELINE_SHAPES.get(ur.unit, {}).get(rec.selector)
+    if base is None or 'aids' not in base:
+        return []
+    out = []
+    for k, v in rec.aid_ctx.items():
+        if k not in base['aids']:
+            continue
+        b = base['aids'][k]
+        if isinstance(v, int):
+            if v > b:
+                out.append('%s: %d -> %d' % (k, b, v))
+        elif v != b:
+            out.append('%s: now inside [%s], written for [%s]' % (k, v, b))
+    return out
+
+
 def drop_fn(msg):
     """function a dropped-directive message belongs to (messages start with `<file> :: <selector>: ` or `<selector>: `)"""
     head = msg.split(': ', 1)[0]
@@ -434,6 +455,8 @@ def check_property(prop, tier='quick'):
                 newc = new_constructs(ur, frec[0]) if len(frec) == 1 else []
                 if lost:
                     undecided.append('%s::%s failed %s, but a proof aid of that function lost its anchor on this tree (%s): not a verdict' % (ur.unit, fshort, f['obligation'], lost[0][:200]))
+                elif frec and len(frec) == 1 and displaced_aids(ur, frec[0]):
+                    undecided.append('%s::%s failed %s, but the control structure around a position-bound proof step of that function changed (%s): the step may be misplaced, not a verdict' % (ur.unit, fshort, f['obligation'], '; '.join(displaced_aids(ur, frec[0]))[:300]))
                 elif newc:
                     # the function now uses something the verifier knows nothing about: the failed obligation may be the missing specification
                     undecided.append('%s::%s failed %s, but its text now contains %s: the verifier has no semantics for it, not a verdict' % (ur.unit, fshort, f['obligation'], '; '.join(newc)[:300]))
